@@ -78,6 +78,14 @@ CHECKS['C07'] = dict(
         '(whole-trajectory bit-identity under different preferences is covered on carriers in C10/C11 harnesses when present). Display units of derived fields may differ; magnitudes may not.',
    ref='3/C07')
 
+CHECKS['C08'] = dict(
+   text='Real Atmo/Vacuum methods on symbolic altitude, temperature, pressure, humidity with pow/sqrt/exp summarised by sound axioms: z3 decides the ISA temperature (linear, 1e-4 for all altitudes), the speed-of-sound constant, '
+        'base and exponent of the barometric formula, dry-air density as a rational function vs the ideal gas law, the station shortcut and far-field structure, humidity normalisation/rejection, vacuum zero density, and monotonicity.',
+   note='PARTIAL: the 1e-4 agreement of pow(base, exponent) itself (standard pressure, density aloft, station-vs-standard-station pressure) is reduced to decided epsilons on base and exponent plus the TRUSTED calculus lemma '
+        '|d ln P| <= E|db|/b + |ln b||dE| (budget checked by the solver); moist-air monotonicity in temperature and pressure is outside (dry air decided; humidity decided with the saturation pressure enclosed in [0,20000] Pa). '
+        'ISA constants: T0 288.15 K, L -6.5 K/km, P0 1013.25 hPa, R* 8.31432, M 0.0289644, g0 9.80665. Temperatures above the model floor (-130 F).',
+   ref='3/C08')
+
 NOT_YET = {}
 
 def main():
